@@ -71,13 +71,18 @@ CLAIMED = {
    note="Trusted: Coq kernel; the model Model/WaveMem.v is hand-written and tied to wavemem.rs by the correspondence check (extraction ExtrOcamlBasic, OCaml driver incl. float_of_string as f64 parser and identity as LZ4, Rust harness, generators, Python oracle). Theorem hypotheses: A-lz4 round trip as an explicit premise; < 2^32 time-table entries; < 4 GiB of data per signal; block capacity <= 65536.",
    technique="Coq proof (refinement of the store to the recorded-history spec) + extracted-model correspondence"),
  "C06": dict(
-   category="translation_validation",
-   text="Canonical-form monitor (no equal neighbours, exact width, minimal kind, Real/String kinds) on every signal loaded from VCD text, "
-        "through the Encoder hook (text, raw, real paths, appended segments) and through fst::SignalWriter (hook), on histories rich in "
-        "redundant writes and kind changes; plus model-vs-implementation correspondence and the meaning oracle.",
-   design_ref="DESIGN.md section 6, C06",
-   note="Trusted: Coq kernel, extraction (ExtrOcamlBasic), OCaml driver incl. float_of_string as f64 parser and identity as LZ4, Rust harness, generators and the Python oracle computed from the abstract history.  Slices are covered by C13.",
-   technique="correspondence: Coq model extracted to OCaml vs real code + canonical-form monitor"),
+   category="proof",
+   text="Coq theorem loaded_signal_canonical (Proofs/CanonProofs.v, pinned in Properties/C06.v; corollary of storage_transparent): for "
+        "every history of time stamps and VCD / raw value changes, every block capacity and compressor obeying the round-trip law, "
+        "the report of a loaded bit-vector signal of any width lists values of exactly the declared width, each with the least state "
+        "kind able to hold it, and no two neighbours are equal; fst_writer_spec (C10) gives the same form for the FST signal writer. "
+        "Not covered by the theorem: reals, strings and sliced signals (C13); these and the tie of the model to the code are decided "
+        "by the canonical-form monitor (no equal neighbours, exact width, minimal kind, Real/String kinds) on every signal loaded from "
+        "VCD text, through the Encoder hook (text, raw, real paths, appended segments) and through fst::SignalWriter (hook), on "
+        "histories rich in redundant writes and kind changes, plus model-vs-implementation correspondence and the meaning oracle.",
+   design_ref="DESIGN.md section 6, C06 and section 12.5",
+   note="Trusted: Coq kernel; hand-written model tied to the code by the correspondence check (extraction ExtrOcamlBasic, OCaml driver incl. float_of_string as f64 parser and identity as LZ4, Rust harness, generators, Python oracle computed from the abstract history).  Slices are covered by C13.",
+   technique="Coq proof (corollary of the store refinement) + extracted-model correspondence + canonical-form monitor"),
  "C14": dict(
    category="translation_validation",
    text="Every generated VCD is loaded through 8 entry-point/mode combinations (mmap path single/multi-threaded, reader over Cursor and "
